@@ -6,6 +6,7 @@ import (
 	"fmt"
 	"hash/fnv"
 	"sort"
+	"strings"
 	"testing"
 	"time"
 
@@ -343,8 +344,8 @@ func c04Run(t *testing.T, c *choice.Stream, r *Result, opt RunOpt, forced *c04Fo
 		e.W.ShortReads = c.Pick("shortreads", 0, 0, 100)
 
 		// ---- fault plan ----
-		fault := c.Weighted("fault", 3, 3, 3, 3, 4, 2, 2, 1)
-		faultName := []string{"cut_fin", "cut_rst", "write_err", "callback_err", "exception", "bad_code", "unexpected", "rows_mismatch"}[fault]
+		fault := c.Weighted("fault", 3, 3, 3, 3, 4, 2, 2, 1, 2)
+		faultName := []string{"cut_fin", "cut_rst", "write_err", "callback_err", "exception", "bad_code", "unexpected", "rows_mismatch", "corrupt"}[fault]
 		if faultName == "rows_mismatch" && (sc.kind != "insert" || len(sc.inCols) < 2) {
 			faultName = "exception"
 		}
@@ -404,6 +405,31 @@ func c04Run(t *testing.T, c *choice.Stream, r *Result, opt RunOpt, forced *c04Fo
 			if err := gen.Fill(extra, cs.RT, gen.Values(c.Sub("mismatch.vals"), cs.RT, 1+c.Draw("mismatch.n", 3))); err != nil {
 				panic(err)
 			}
+		case "corrupt":
+			// an undecodable packet: one byte of the server's stream altered in
+			// flight (any packet, any field; under compression mostly inside a frame)
+			var cand []int
+			for i := qStart; i < len(script); i++ {
+				if len(script[i].Send) > 0 {
+					cand = append(cand, i)
+				}
+			}
+			if len(cand) == 0 {
+				faultName = "exception"
+				script = append(append([]simnet.Step{}, script...), simnet.Step{Label: "exception", Send: (&SPacket{Kind: "exception", Exc: DrawExceptionChain(c)}).Encode(cf)})
+				break
+			}
+			i := cand[c.Draw("corrupt.step", len(cand))]
+			b := append([]byte(nil), script[i].Send...)
+			off := c.Draw("corrupt.off", len(b))
+			if c.Bool("corrupt.head", 1, 3) {
+				off = c.Draw("corrupt.off.head", min(len(b), 30)) // codes, names, lengths, frame headers
+			}
+			b[off] ^= byte(1 << c.Draw("corrupt.bit", 8))
+			ns := append([]simnet.Step{}, script...)
+			ns[i].Send = b
+			ns[i].Label += "*"
+			script = ns
 		case "exception", "bad_code", "unexpected":
 			// replace the script from position p (>= after the Query packet) on
 			p := qStart + 1 + c.Draw("fault.pos", len(script)-qStart-1)
@@ -422,6 +448,18 @@ func c04Run(t *testing.T, c *choice.Stream, r *Result, opt RunOpt, forced *c04Fo
 			ns := append([]simnet.Step{}, script[:p]...)
 			ns = append(ns, inj)
 			script = ns
+		}
+		// where a server exception ends in the response stream, if there is one:
+		// only a client that has been given that whole packet may stay open
+		excEnd := -1
+		{
+			acc := 0
+			for _, s := range script[qStart:] {
+				acc += len(s.Send)
+				if strings.HasPrefix(s.Label, "exception") && !strings.HasSuffix(s.Label, "*") {
+					excEnd = acc
+				}
+			}
 		}
 		srv := simnet.NewServer(cf.ServerRev, script)
 		srv.Auto = autoResponder(cf)
@@ -451,6 +489,15 @@ func c04Run(t *testing.T, c *choice.Stream, r *Result, opt RunOpt, forced *c04Fo
 			case "write_err":
 				conn.WriteErrAfter = conn.OutLen() + werrK
 			}
+			if faultName == "corrupt" {
+				// An altered byte can hide the end of the response (a code or a length
+				// changed): the client then waits for packets that never come, which
+				// is what it is meant to do while its context lives. The context gets
+				// a deadline, so that the call has to return in every case.
+				var cancel context.CancelFunc
+				ctx, cancel = context.WithTimeout(ctx, max(8*cf.EffReadTimeout(), 2*time.Second))
+				defer cancel()
+			}
 			t0 := time.Now()
 			before := conn.OutLen()
 			derr := cl.Do(ctx, sc.query)
@@ -463,10 +510,29 @@ func c04Run(t *testing.T, c *choice.Stream, r *Result, opt RunOpt, forced *c04Fo
 			}
 			r.NonTriv = true
 			r.Fire(faultName)
-			if lim := cf.EffReadTimeout() + 5*time.Second; took > lim {
+			if faultName == "corrupt" {
+				var cde *ch.CorruptedDataErr
+				if errors.As(derr, &cde) {
+					r.Fire("corrupted_data_err")
+					if cde.Actual == cde.Reference {
+						r.Violate("corruption-report", "equal-checksums", "Do reported corrupted data with equal checksums: %v", derr)
+					}
+				}
+				if ch.IsException(derr) && !cl.IsClosed() {
+					// the altered byte produced (or lay inside) a well-formed exception: the
+					// client cannot know, and where the stream stands afterwards is undefined
+					r.Probe("corrupt_became_exception")
+					return
+				}
+			}
+			if lim := cf.EffReadTimeout() + 5*time.Second; took > lim && !(faultName == "corrupt" && ctx.Err() != nil) {
 				r.Violate("slow-return", "slow-return:"+faultName, "Do returned after %v of simulated time (read timeout %v) with %v", took, cf.EffReadTimeout(), derr)
 			}
-			checkAfterFailure(e, r, cf, cl, conn, srv, faultName, derr)
+			excWhole := true
+			if faultName == "cut_fin" || faultName == "cut_rst" {
+				excWhole = excEnd >= 0 && cutK >= excEnd
+			}
+			checkAfterFailure(e, r, cf, cl, conn, srv, faultName, derr, excWhole)
 		}
 	})
 	return info
@@ -494,7 +560,8 @@ func scriptLabels(s []simnet.Step) []string {
 
 // checkAfterFailure is the post-failure oracle of C04: closed and inert, or
 // open and exactly at a packet boundary in both directions.
-func checkAfterFailure(e *Env, r *Result, cf *Conf, cl *ch.Client, conn *simnet.Conn, srv *simnet.Server, faultName string, derr error) {
+// excWhole: the server's exception packet (if any) reached the client in full.
+func checkAfterFailure(e *Env, r *Result, cf *Conf, cl *ch.Client, conn *simnet.Conn, srv *simnet.Server, faultName string, derr error, excWhole bool) {
 	ctx := context.Background()
 	if cl.IsClosed() {
 		r.Probe("closed_after_failure")
@@ -541,11 +608,11 @@ func checkAfterFailure(e *Env, r *Result, cf *Conf, cl *ch.Client, conn *simnet.
 	perr := cl.Ping(ctx)
 	got := conn.OutCopy()[mark:]
 	transport := faultName == "cut_fin" || faultName == "cut_rst" || faultName == "write_err"
-	if transport && !ch.IsException(derr) {
+	if transport && !(ch.IsException(derr) && excWhole) {
 		// The query did not end with a complete server exception, so it ended in
 		// the middle of the exchange: a stream that broke inside a packet (either
 		// direction) cannot be at a packet boundary, and the client may not stay open.
-		r.Violate("open-not-at-boundary", "open-after-transport-failure:"+faultName, "the connection failed during the query (%s) and Do returned %q, which is not a server exception, yet the client was left open", faultName, derr)
+		r.Violate("open-not-at-boundary", "open-after-transport-failure:"+faultName, "the connection failed during the query (%s) and Do returned %q (whole server exception delivered: %v), yet the client was left open", faultName, derr, excWhole)
 		return
 	}
 	if transport && len(got) == 0 && perr != nil {
